@@ -269,7 +269,7 @@ func c10Gen(c *fw.Ctx, i int) c10Case {
 	for k := 0; k < nInc; k++ {
 		frag := cs.cfg.FragmentDurationMs
 		sp := gen.EsSpec{VCodec: []string{"avc", "avc", "hevc", "", "avc"}[r.Intn(5)], ACodec: []string{"aac", "aac", "", "aac"}[r.Intn(4)], AacIdx: 4, AacChans: 2, AacObj: 2,
-			MaxNals: 1 + r.Intn(2), AudioPer: 1 + r.Intn(2), AudioGap: r.Intn(3) == 0, InBandPS: r.Intn(2) == 0}
+			MaxNals: 1 + r.Intn(2), AudioPer: 1 + r.Intn(2), AudioGap: r.Intn(3) == 0, InBandPS: r.Intn(2) == 0, LonePS: r.Intn(2) == 0}
 		if sp.VCodec == "" && sp.ACodec == "" {
 			sp.ACodec = "aac"
 		}
